@@ -25,7 +25,11 @@ for d in sorted(os.listdir(os.path.join(ROOT, "seeded"))):
     if not rs:
         print("no run recorded for", d)
         continue
-    if not rs[-1]:
+    note = notes.get(f"{pid}/{v.upper()}", "")
+    if note.startswith("OTHER:"):
+        # not reported by the check of its own property, for a reason stated in the note (another property's check reports it)
+        m["detection"] = note[len("OTHER:"):].strip()
+    elif not rs[-1]:
         m["detection"] = "NOT CAUGHT"
         print("NOT CAUGHT", d)
     else:
